@@ -317,8 +317,12 @@ def enum_caches(seed):
                     back["_chf_"] = m3
                 else:
                     t1, t3 = 1000 + rnd.randrange(99), 5000 + rnd.randrange(99)
-                    store["_eclasses_"] = {"e1": NS(path="/repo/eclass/e1.eclass", mtime=t1), "e2": NS(path="/other dir/eclass/e2.eclass", mtime=77)}
-                    store["_chf_"] = NS(mtime=t3)
+                    # a file's mtime as stat gives it has a fraction; an entry records the whole second it falls in (what a reader compares a
+                    # file's int(mtime) with), never a later one
+                    f1, f3 = ((.75, .5) if s % 4 == 0 else (0, 0)) if tag == "first" else ((.5, .999) if s % 4 == 0 else (0, 0))
+                    store["_eclasses_"] = {"e1": NS(path="/repo/eclass/e1.eclass", mtime=t1 + f1), "e2": NS(path="/other dir/eclass/e2.eclass", mtime=77)}
+                    store["_chf_"] = NS(mtime=t3 + f3 + (1 if f3 == .5 and t3 % 2 == 0 else 0))
+                    t3 = int(store["_chf_"].mtime)
                     back["_eclasses_"] = {"e1": (("eclassdir", "/repo/eclass"), ("mtime", t1)), "e2": (("eclassdir", "/other dir/eclass"), ("mtime", 77))}
                     back["_chf_"] = t3
                 # the size of the eclass map varies: both, one, none (an empty map), or no _eclasses_ key at all
